@@ -8,12 +8,16 @@ NoCase == [what |-> "none", w |-> 1, h |-> 1, K |-> 0, c |-> 0, opt |-> "none"]
 
 FirstRowDiff(a, b) == IF Len(a) # Len(b) THEN 0 ELSE IF \A y \in 1..Len(a) : a[y] = b[y] THEN -1 ELSE CHOOSE y \in 1..Len(a) : a[y] # b[y]
 
+\* taps ker[k] / kden with a source made of multiples of kden: the sums are those of the numerators over the divided source
+DivImg(img, d) == [y \in 1..Len(img) |-> [x \in 1..Len(img[y]) |-> img[y][x] \div d]]
 CorrVerdict(ev) ==
-    LET pad == [big |-> ev.big, ox |-> ev.ox, oy |-> ev.oy]
-        base == CASE ev.fn \in {"correlate_rows", "correlate_rows_fixed"} -> P_CorrRows(ev.src, ev.ker, ev.c, ev.opt, pad, ev.before)
-                  [] ev.fn \in {"correlate_cols", "correlate_cols_fixed"} -> P_CorrCols(ev.src, ev.ker, ev.c, ev.opt, pad, ev.before)
-                  [] ev.fn \in {"convolve_rows", "convolve_rows_fixed"}   -> P_ConvRows(ev.src, ev.ker, ev.c, ev.opt, pad, ev.before)
-                  [] ev.fn \in {"convolve_cols", "convolve_cols_fixed"}   -> P_ConvCols(ev.src, ev.ker, ev.c, ev.opt, pad, ev.before)
+    LET kd  == IF Has(ev, "kden") THEN ev.kden ELSE 1
+        src == IF kd = 1 THEN ev.src ELSE DivImg(ev.src, kd)
+        pad == [big |-> IF kd = 1 THEN ev.big ELSE DivImg(ev.big, kd), ox |-> ev.ox, oy |-> ev.oy]
+        base == CASE ev.fn \in {"correlate_rows", "correlate_rows_fixed"} -> P_CorrRows(src, ev.ker, ev.c, ev.opt, pad, ev.before)
+                  [] ev.fn \in {"correlate_cols", "correlate_cols_fixed"} -> P_CorrCols(src, ev.ker, ev.c, ev.opt, pad, ev.before)
+                  [] ev.fn \in {"convolve_rows", "convolve_rows_fixed"}   -> P_ConvRows(src, ev.ker, ev.c, ev.opt, pad, ev.before)
+                  [] ev.fn \in {"convolve_cols", "convolve_cols_fixed"}   -> P_ConvCols(src, ev.ker, ev.c, ev.opt, pad, ev.before)
         \* an empty image has nothing to compare (and no rows to transpose)
         exp == IF ev.w = 0 \/ ev.h = 0 THEN ev.dst ELSE base
         d == FirstRowDiff(exp, ev.dst)
@@ -22,7 +26,7 @@ CorrVerdict(ev) ==
        ELSE {V("P_TextbookSum", "None", key, [w |-> ev.w, h |-> ev.h, K |-> Len(ev.ker), c |-> ev.c, row |-> d - 1,
                                                expected |-> IF d > 0 THEN exp[d] ELSE <<>>, got |-> IF d > 0 THEN ev.dst[d] ELSE <<>>])}
 CorrDrift(ev) ==
-    IF ev.fn = "correlate_rows" /\ ev.w > 0 /\ ev.h > 0
+    IF ev.fn = "correlate_rows" /\ ev.w > 0 /\ ev.h > 0 /\ ~Has(ev, "kden")
     THEN LET Row(y) == I_CorrRow(ev.src[y], ev.ker, ev.c, ev.opt,
                                  SubSeq(ev.big[y + ev.oy], ev.ox - ev.c + 1, ev.ox + ev.w + (Len(ev.ker) - 1 - ev.c)), ev.before[y])
          IN IF \A y \in 1..ev.h : Row(y) = ev.dst[y] THEN {} ELSE {V("I_CorrRow", "model", ev.opt, [w |-> ev.w, K |-> Len(ev.ker), c |-> ev.c])}
